@@ -441,38 +441,50 @@ def divisor_objects(d):
 
 
 def phase_divisor_multiples(case, res):
-    """(k d + r) // d, % d for Phase divisors d that need both doubles: k and r are recovered exactly."""
-    for cnt, fr in ((1000000.0, 0.3), (float(2 ** 40 + 1), 0.3), (7.0, 1e-17), (123456789.0, -0.4999)):
+    """(k d + r) // d, % d for divisors d (Phase needing both doubles, Phase and Quantity of one double, of either sign) and
+    remainders r just above AND just below a multiple of d: k and r are recovered exactly."""
+    divs = [(cnt, fr, "Phase") for cnt, fr in ((1000000.0, 0.3), (float(2 ** 40 + 1), 0.3), (7.0, 1e-17), (123456789.0, -0.4999),
+                                               (100.0, 0.3), (float(2 ** 30), 0.0), (100.0, 0.0), (1.0, 0.0), (-float(2 ** 30), 0.0),
+                                               (-100.0, -0.3), (-1.0, 0.0), (3.0, 2.0 ** -60))]
+    divs += [(cnt, 0.0, "Quantity") for cnt in (float(2 ** 30), 100.0, 1.0, -float(2 ** 30), 0.75)]
+    for cnt, fr, kind in divs:
         d = Phase(cnt, fr)
         dv = exact(d)[0]
-        for k in (1, 2, 3, 7, 100):
-            for r_ in (0.0, 0.25, 1e-9):
+        dobj = d if kind == "Phase" else cnt * u.cycle
+        sg = 1 if dv > 0 else -1
+        for k in (0, 1, 2, 3, 7, 100, 1048577, -1, -5):
+            for r_ in (0.0, 0.25, 1e-9, -1e-9, -1e-15, 1e-15, -2.0 ** -40, -1e-12, -1e-17):
                 pk = d * k + r_
                 pv = exact(pk)[0]
                 if abs(pv) > LIM:
                     continue
                 fl = math.floor(pv / dv)
                 rem = pv - fl * dv
-                near = rem <= TOL * max(1, k) or dv - rem <= TOL * max(1, k)
-                sub = {"d": [cnt, repr(fr)], "k": k, "r": r_}
-                res.state(("phase-divisor", cnt, fr, k, r_))
+                tolk = TOL * max(1, abs(k))
+                near = sg * rem <= tolk or sg * (dv - rem) <= tolk
+                sub = {"d": [cnt, repr(fr)], "kind": kind, "k": k, "r": repr(r_)}
+                res.state(("phase-divisor", cnt, fr, kind, k, r_))
                 try:
-                    qq, rr = divmod(pk, d)
-                    q1, r1 = pk // d, pk % d
+                    qq, rr = divmod(pk, dobj)
+                    q1, r1 = pk // dobj, pk % dobj
                 except Exception as e:
-                    res.violation("divmod|Phase (two doubles)|raised", f"{type(e).__name__}: {e} [{sub}]", case, sub)
+                    res.violation(f"divmod|{kind} (multiples)|raised", f"{type(e).__name__}: {e} [{sub}]", case, sub)
                     continue
                 res.transitions += 3
                 for nm, q_, r2 in (("divmod", qq, rr), ("// and %", q1, r1)):
                     qv = float(u.Quantity(q_).to_value(u.dimensionless_unscaled))
                     ok_q = int(qv) in ({fl} | ({fl - 1, fl + 1} if near else set()))
                     rv = exact(r2)[0] if type(r2) is Phase else None
-                    if not ok_q or rv is None or abs(int(qv) * dv + rv - pv) > TOL * max(1, abs(int(qv))) or not (-TOL * k <= rv <= dv + TOL * k):
-                        res.violation("divmod|Phase (two doubles)|multiple of the divisor", f"({k} d + {r_}) {nm} d with d = ({cnt!r}, {fr!r}): "
-                                      f"quotient {qv!r}, remainder {r2!r}; exact quotient {fl}, remainder {float(rem)!r}", case, sub)
+                    if (not ok_q or rv is None or abs(int(qv) * dv + rv - pv) > TOL * max(1, abs(int(qv)))
+                            or not (-tolk <= sg * rv <= sg * dv + tolk)):
+                        res.violation(f"divmod|{kind} (multiples)|multiple of the divisor", f"({k} d + {r_!r}) {nm} d with d = "
+                                      f"({cnt!r}, {fr!r}) as {kind}: quotient {qv!r}, remainder {r2!r}; exact quotient {fl}, "
+                                      f"remainder {float(rem)!r}", case, sub)
                         break
                 else:
                     res.hits["Phase divisor needing two doubles"] += 1
+                    if r_ < 0 and not near:
+                        res.hits["dividend just below a multiple of the divisor"] += 1
 
 
 def divmod_case(case, res):
@@ -743,7 +755,7 @@ def main(argv=None):
         required_hits=["exact +-1/2 fraction", "imaginary phase", "factor kinds", "imaginary factor", "same factor array used twice", "in-place real<->imaginary transitions", "addend kinds",
                        "unit-mismatched addend rejected", "out= forms", "Phase divisor", "in-place remainder",
                        "remainder within 2^-52 of 0 or d (either neighbour accepted)", "whole grid as one array",
-                       "trig/exp on fractional part", "construction kinds", "smaller number given first", "Phase divisor needing two doubles"],
+                       "trig/exp on fractional part", "construction kinds", "smaller number given first", "Phase divisor needing two doubles", "dividend just below a multiple of the divisor"],
         assumptions=["operand values are read back exactly (Fractions of the stored doubles); results beyond 2^52 cycles are outside "
                      "the property", "plain-number divisors of // % divmod are refused by astropy (unit error) and left open",
                      "list * Phase (Python sequence repetition) is not arithmetic"],
